@@ -69,7 +69,14 @@ fn relayout(text: &str, layout: usize) -> Option<(String, Box<dyn Fn(usize) -> u
 			}
 			Some((t.to_string(), Box::new(|l| l)))
 		}
-		3 => Some((format!("{COMMENT}\n{text}"), Box::new(|l| l + 1))),
+		3 =>
+		{
+			if text.is_empty()
+			{
+				return None;
+			}
+			Some((format!("{COMMENT}\n{text}"), Box::new(|l| l + 1)))
+		}
 		4 =>
 		{
 			let mut out = String::new();
@@ -163,11 +170,11 @@ pub fn marker_inputs() -> Vec<Input>
 		("unexpected character", "", "var x = 1 $ 2;", &[110], "$"),
 		("too large literal", "", "var x = 99999999999999999999999999999999999999999;", &[140], "99999999999999999999999999999999999999999"),
 		("bad literal suffix", "", "var x = 1i7;", &[141], "1i7"),
-		("bad escape", "", "var x = \"abc\\qdef\";", &[160], "\\q"),
-		("missing closing quote", "", "var x = \"abc;", &[161], "\"abc;"),
-		("too many arguments", "", "var x: i32 = helper(1, 2);", &[510], "helper"),
+		("bad escape", "", "var x = \"abc\\qdef\";", &[162], "\\q"),
+		("missing closing quote", "", "var x = \"abc;", &[160], "\"abc;"),
+		("too many arguments", "", "var x: i32 = helper(1, 2);", &[511], "helper"),
 		("assignment to constant", "", "KONST = 3;", &[530], "KONST"),
-		("mismatched operands", "\tvar flag: bool = true;\n", "var x: i32 = 5i32 + flag;", &[551, 504, 550, 552], "flag"),
+		("mismatched operands", "\tvar flag: bool = true;\n", "var x: i32 = 5i32 + flag;", &[551], "+"),
 	];
 	const STMT_HEAD: &str = "const KONST: i32 = 7;\nstruct S\n{\n\ta: i32,\n}\nfn helper(a: i32) -> i32\n{\n\treturn: a\n}\nfn main() -> i32\n{\n\tvar arr: [3]i32 = [1, 2, 3];\n\tvar s: S = S { a: 1 };\n";
 	for (name, before, stmt, codes, text) in stmts
@@ -203,7 +210,7 @@ pub fn marker_inputs() -> Vec<Input>
 		("duplicate constant", "const TWICE: i32 = 1; const TWICE: i32 = 2;", &[423], "TWICE"),
 		("duplicate structure", "struct Twice\n{\n\ta: i32,\n}\nstruct Twice\n{\n\ta: i32,\n}", &[425], "Twice"),
 		("duplicate member", "struct T\n{\n\ttwice: i32,\n\ttwice: i32,\n}", &[426], "twice"),
-		("unresolved import", "import \"nonexistent.pn\";", &[470], "\"nonexistent.pn\""),
+		("unresolved import", "import \"nonexistent.pn\";", &[470], "import \"nonexistent.pn\""),
 	];
 	for (name, decl, codes, text) in decls
 	{
@@ -475,6 +482,14 @@ pub fn drive(d: &mut Driver)
 			}
 		}
 	}
+	// crashes of the compiler are the subject of C02; here they only reduce what was observed
+	let crashed: Vec<String> = d.total.violations.keys().filter(|k| k.starts_with("crash:")).cloned().collect();
+	for k in &crashed
+	{
+		d.total.violations.remove(k);
+		d.total.violation_counts.remove(k);
+	}
+	d.total.counters.insert("inputs on which the compiler crashed (subject of C02, not judged here)".to_string(), crashed.len() as u64);
 	d.total.counters.retain(|k, _| !k.starts_with("digest:"));
 	d.total.counters.insert("jobs whose digests were compared across processes".to_string(), compared);
 	d.assume("the six layouts keep the token sequence; diagnostics are compared across them on (code, text under the span with white space collapsed, line)");
